@@ -166,19 +166,30 @@ void runCS(Case& c, unsigned cs, bool mid, unsigned nops) {
 
 } // namespace
 
+// 12-, 20- and 24-byte elements (sizes that are no power of two; alignment 8): chunk sizes 3 and 64
+template <typename T>
+void runOdd(Case& c, unsigned cs, bool mid, unsigned nops) {
+  if (cs == 3)
+    return runT<T, 3>(c, mid, nops);
+  return runT<T, 64>(c, mid, nops);
+}
+
 void run_gdeque(Case& c) {
-  unsigned cs   = c.rng.pick({1u, 2u, 2u, 3u, 3u, 4u, 4u, 64u});
-  bool tracked  = c.rng.below(3) != 0;
+  static const char* EN[] = {"tracked", "pod", "tracked12", "pod20", "tracked24"};
+  unsigned elem = c.rng.below(4) ? (c.rng.below(3) != 0 ? 0u : 1u) : 2 + (unsigned)c.rng.below(3);
+  unsigned cs   = elem < 2 ? c.rng.pick({1u, 2u, 2u, 3u, 3u, 4u, 4u, 64u}) : c.rng.pick({3u, 3u, 64u});
   bool mid      = true; // insertion in the middle is part of every case
   unsigned nops = c.pickOps();
-  std::string cfg = "cs" + std::to_string(cs) + (tracked ? "|tracked" : "|pod") + (mid ? "|mid" : "|ends");
-  if (!c.begin("gdeque", cfg,
-          J().kv("chunk", cs).kv("elem", tracked ? "tracked" : "pod").kv("emplace_in_middle", mid).kv("nops", nops)))
+  std::string cfg = "cs" + std::to_string(cs) + "|" + EN[elem] + (mid ? "|mid" : "|ends");
+  if (!c.begin("gdeque", cfg, J().kv("chunk", cs).kv("elem", EN[elem]).kv("emplace_in_middle", mid).kv("nops", nops)))
     return;
-  if (tracked)
-    runCS<Tracked>(c, cs, mid, nops);
-  else
-    runCS<Pod>(c, cs, mid, nops);
+  switch (elem) {
+  case 0: return runCS<Tracked>(c, cs, mid, nops);
+  case 1: return runCS<Pod>(c, cs, mid, nops);
+  case 2: return runOdd<Tracked12>(c, cs, mid, nops);
+  case 3: return runOdd<Pod20>(c, cs, mid, nops);
+  default: return runOdd<Tracked24>(c, cs, mid, nops);
+  }
 }
 
 } // namespace c14
